@@ -35,7 +35,7 @@ class LogDifferenceRateTransform(Transform):
         raise NotImplementedError
 
     def log_abs_det_jacobian(self, x, y) -> torch.Tensor:
-        return -y.sum(-1)
+        return -x.log().sum(-1)
 
 
 @register_class
